@@ -18,14 +18,30 @@ def run(ctx):
         "MCTheorem": "RandomSubset(%d, Pool)" % (500 if quick else 1500),
     }
     mc = mc_module("MCDescGen", "DescGen, Randomization", defs)
-    cfg = ("CONSTANTS\n  NameSet <- MCNames\n  HelpSet <- MCHelps\n  LN <- MCLN\n  ValSet <- MCVals\n  MaxCL = 2\n  MaxVL = 2\n  TheoremOn <- MCTheorem\n"
-           "SPECIFICATION Spec\nINVARIANTS Emit Structural\nCHECK_DEADLOCK FALSE\n")
-    r = tlc(ctx, "DescGen", cfg, mc_text=mc, mc_name="MCDescGen", workers=8, label="gen", timeout=3000, heap="8g")
-    if not r["ok"]:
-        raise ToolError("DescGen failed: %s\n%s" % (r["violated"], r["output"][-3000:]))
-    cases = printed_values(r["output"], "CASE")
-    if len(cases) != r["distinct"]:
-        raise ToolError("printed %d cases for %d states" % (len(cases), r["distinct"]))
+    # TLC generates (and checks) initial states on one thread: the thorough pool is cut into slices run as parallel TLC processes
+    parts = 1 if quick else 8
+    cfgs = [("CONSTANTS\n  NameSet <- MCNames\n  HelpSet <- MCHelps\n  LN <- MCLN\n  ValSet <- MCVals\n  MaxCL = 2\n  MaxVL = 2\n  TheoremOn <- MCTheorem\n  PartN = %d\n  PartK = %d\n"
+             "SPECIFICATION Spec\nINVARIANTS Emit Structural\nCHECK_DEADLOCK FALSE\n") % (parts, k) for k in range(parts)]
+    import concurrent.futures as cf
+    with cf.ThreadPoolExecutor(max_workers=parts) as ex:
+        rs = list(ex.map(lambda kc: tlc(ctx, "DescGen", kc[1], mc_text=mc, mc_name="MCDescGen", workers=1 if parts > 1 else 8, label="gen%d" % kc[0], timeout=5000, heap="4g" if parts > 1 else "8g"), enumerate(cfgs)))
+    cases = []
+    for r in rs:
+        if not r["ok"]:
+            raise ToolError("DescGen failed: %s\n%s" % (r["violated"], r["output"][-3000:]))
+        cs = printed_values(r["output"], "CASE")
+        if len(cs) != r["distinct"]:
+            raise ToolError("printed %d cases for %d states" % (len(cs), r["distinct"]))
+        cases += cs
+    if parts > 1:
+        log("DescGen slices: %s descriptors" % [r["distinct"] for r in rs])
+    pool_size = len(cases)
+    del rs
+    if len(cases) > 120000:
+        # the thorough pool (several hundred thousand descriptors) is enumerated and its theorems checked by TLC; a seeded sample of it
+        # is executed against the library
+        import random
+        cases = random.Random(ctx.seed + 15).sample(cases, 120000)
     jobs, meta = [], []
     R = 3 if quick else 6
     for ci, c in enumerate(cases):
@@ -174,8 +190,8 @@ def run(ctx):
         "descriptors": len(cases), "accepted_by_code": len(acc), "variants_executed": nvar, "classes": nclasses,
         "pairs_covered_by_partition_comparison": len(acc) * (len(acc) - 1) // 2,
         "samples": [show(cases[i]) for i in (0, len(cases) // 3, len(cases) - 1)],
-        "exhaustive": True,
-        "rule": "every descriptor of the TLC-enumerated pool built with Desc::new and a metric constructor, with constant labels inserted in every order and in fresh hash maps; "
+        "exhaustive": pool_size == len(cases), "pool_enumerated_by_TLC": pool_size,
+        "rule": "every descriptor of the TLC-enumerated pool (thorough: a seeded sample of 120000 of them) built with Desc::new and a metric constructor, with constant labels inserted in every order and in fresh hash maps; "
                 "partition of real id / dim_hash compared with the partition by the specification's IdStream / DimStream (= all pairs); theorem equal-stream <=> equal-key checked by TLC on a random sub-pool",
     })
     ctx.assumptions += ["equality up to collisions of the 64-bit hash itself", "strings over {a, z} (and e-acute in thorough) of length <= 2-3, <= 2 constant and <= 2 variable labels"]
